@@ -45,7 +45,8 @@ META = {
         "by a membership test within the table's keys; int()/chr() on scanned text are discharged by the module's own character "
         "facts (digit facts followed through helper parameters; hex escapes validated by a range(N) loop over peek(k), by "
         "any()/all() or a for-loop over the prefix(N) slice, plus the code-point range test); an `assert <pending key> is not None` in "
-        "the value-token branch of _to_tokens is discharged by the protocol invariant of R6, and only while that invariant is proved. "
+        "the value-token branch of _to_tokens is discharged by the protocol invariant of R6, and only while that invariant is proved; "
+        "`raise <TokenizeError>.method(...)` is typed by the method's return annotation. "
         "R2: every loop terminates: each cyclic path confined to the loop body strictly advances the cursor, a look-ahead counter "
         "or the exit flag; conditional advances (_scan_line_break) are decided from character-class facts and per-function "
         "summaries (must-advance, advancing set, truthy-implies-advanced); conditional-expression offsets count when every arm "
@@ -69,10 +70,11 @@ META = {
         "all in S' and `prefix(k) == const` vs per-offset peeks unified, PyYAML's flow-context code read with flow_level == 0. "
         "A missing/replaced entry or an extra unconditional emission/effect is a violation; a conditional pure addition is "
         "ANALYSIS-ERROR. "
-        "R5: every TokenizeError carries Position values taken from the stream (through locals, parameters, helpers, unpacked "
-        "sequences), get_position() binds each Position field to the cursor field of the same name, clone() shifts both marks "
+        "R5: every TokenizeError carries Position values taken from the stream (through locals, parameters incl. bound methods, "
+        "helpers, unpacked sequences, and fields of module classes whose every store holds a stream position - a `Position | None` "
+        "field counts where it was tested against None), get_position() binds each Position field to the cursor field of the same name, clone() shifts both marks "
         "by (line_offset -> line, column_offset -> column) - directly, in a helper, or element-wise in a comprehension - with "
-        "context_mark guarded against None, and the offsets reach clone() un-crossed whenever either is non-zero. "
+        "context_mark guarded against None, and the offsets reach every clone() call un-crossed (in _to_tokens whenever either is non-zero). "
         "R6: the state machine around the scanners: block/quoted scalars are dispatched on exactly the characters PyYAML's "
         "fetch_more_tokens uses and get that character as style; scanners left/right of ':' get is_key True/False; every "
         "pending key reaches a yield before it is overwritten or the generator ends and none is yielded twice; the protocol "
@@ -124,7 +126,7 @@ class _Held:
     def violation(self, rule_id, key, site, what, path=None):
         origin = key.split("|origin=", 1)[1] if "|origin=" in key else ""
         fq, _, text = origin.partition("|")
-        if fq.startswith(f"myst_parser.{OPT}:") and text.startswith(("int(", "chr(", "assert ")):
+        if fq.startswith(f"myst_parser.{OPT}:") and (text.startswith(("int(", "chr(", "assert ")) or (text.startswith("raise ") and "|Exception|origin=" in key)):
             self.held.append((rule_id, key, site, what, path, fq, text))
         else:
             self._rep.violation(rule_id, key, site, what, path)
@@ -208,6 +210,27 @@ def _rejudge(e9, corpus: Corpus, fq: str, text: str) -> str | None:
     return "; ".join(sorted(set(whys)))
 
 
+def _rejudge_raise(corpus: Corpus, fq: str, text: str) -> str | None:
+    """the engine could not type `raise <expr>`: it is the documented class when <expr> is a method call whose receiver is
+    a TokenizeError and whose return annotation is TokenizeError (`TokenizeError(...).clone(...)`)"""
+    fi = corpus.func(fq.replace("myst_parser.", "", 1))
+    g = get_callgraph(corpus)
+    raises = [r for r in fi.local_nodes() if isinstance(r, ast.Raise) and r.exc is not None and short(r) == text]
+    if not raises:
+        return None
+    for r in raises:
+        e = r.exc
+        if not (isinstance(e, ast.Call) and isinstance(e.func, ast.Attribute)):
+            return None
+        t = g.expr_type(e.func.value, fi)
+        if not (t and t[0] == "is" and t[1].name == "TokenizeError"):
+            return None
+        meth = corpus.lookup_method(t[1], e.func.attr)
+        if meth is None or meth.node.returns is None or unparse(meth.node.returns).strip("'\"") != "TokenizeError":
+            return None
+    return "the raised value is TokenizeError.<method>() annotated to return TokenizeError"
+
+
 def _rejudge_assert(corpus: Corpus, fq: str, text: str) -> str | None:
     """an `assert <pending key> is not None` in the value-token branch of _to_tokens is discharged by the protocol invariant"""
     fi = corpus.func(fq.replace("myst_parser.", "", 1))
@@ -266,7 +289,7 @@ def r1_closed_failure_mode(corpus: Corpus, rep: Report, tier: str):
     if held:
         e9 = get_e9(corpus)
         for rule_id, key, site, what, path, fq, text in held:
-            why = _rejudge_assert(corpus, fq, text) if text.startswith("assert ") else _rejudge(e9, corpus, fq, text)
+            why = _rejudge_assert(corpus, fq, text) if text.startswith("assert ") else _rejudge_raise(corpus, fq, text) if text.startswith("raise ") else _rejudge(e9, corpus, fq, text)
             if why:
                 rep.ok(rule_id, key, site, "discharged by C07's character facts: " + why)
             else:
@@ -538,13 +561,44 @@ def _position_kind(e: ast.expr | None, fi: FunctionInfo, corpus: Corpus, depth: 
                 return "pos", f"{t[1].name}.{e.attr}"
             if t[1].name == "TokenizeError" and e.attr in ("problem_mark", "context_mark"):
                 return "pos", f"self.{e.attr}"
-            if t[1].name == "StreamBuffer":
-                return "bad", f"stream.{e.attr} is an int, not a Position"
+            if t[1].name in ("StreamBuffer", "Position"):
+                return "bad", f"{unparse(e)} is an int, not a Position"
+            # a field of another class of the module: what do the stores into it hold?
+            ci = t[1]
+            kinds = []
+            for st in ci.node.body:
+                if isinstance(st, (ast.AnnAssign, ast.Assign)) and any(isinstance(x, ast.Name) and x.id == e.attr for x in ([st.target] if isinstance(st, ast.AnnAssign) else st.targets)) and st.value is not None:
+                    kinds.append(_position_kind(st.value, fi, corpus, depth + 1))
+            for mf in ci.methods.values():
+                for st in mf.local_nodes():
+                    if isinstance(st, (ast.Assign, ast.AnnAssign)) and st.value is not None and any(isinstance(x, ast.Attribute) and x.attr == e.attr and isinstance(x.value, ast.Name) and x.value.id == "self" for x in ([st.target] if isinstance(st, ast.AnnAssign) else st.targets)):
+                        kinds.append(_position_kind(st.value, mf, corpus, depth + 1))
+            foreign = [
+                st for f2 in fi.module.functions.values() if not f2.is_lambda and f2.cls is not ci for st in f2.local_nodes()
+                if isinstance(st, (ast.Assign, ast.AugAssign, ast.AnnAssign)) and any(isinstance(x, ast.Attribute) and x.attr == e.attr and isinstance(x.ctx, ast.Store) for x in ast.walk(st))
+            ]
+            if kinds and not foreign and all(k_[0] in ("pos", "none") for k_ in kinds):
+                if all(k_[0] == "pos" for k_ in kinds):
+                    return "pos", f"{ci.name}.{e.attr} (every store holds a stream position)"
+                if not any(k_[0] == "pos" for k_ in kinds):
+                    return "none", "None"
+                # Position | None: a position where the expression was tested against None
+                try:
+                    cfg = get_cfg(fi)
+                    for t_, pol in cfg.guards(cfg.stmt_of(e)):
+                        if (unparse(t_) == f"{unparse(e)} is not None" and pol) or (unparse(t_) == f"{unparse(e)} is None" and not pol):
+                            return "pos", f"{ci.name}.{e.attr} (a stream position or None; tested against None here)"
+                except Unsupported:
+                    pass
+                return "none", f"{ci.name}.{e.attr} may be None here"
+            for k_ in kinds:
+                if k_[0] not in ("pos", "none"):
+                    return k_
         return "unknown", f"attribute {unparse(e)}"
     if isinstance(e, ast.Name):
         if e.id in fi.params:
             # parameter: every call site in the module must pass a position
-            idx = fi.params.index(e.id)
+            idx = fi.params.index(e.id) - (1 if fi.cls is not None and fi.params[:1] == ["self"] else 0)  # bound method: no self at the call
             sites = g.callers().get(fi.fq, [])
             if not sites:
                 return "unknown", f"parameter {e.id} of a function without call sites"
@@ -809,6 +863,27 @@ def r5_positions(corpus: Corpus, rep: Report, tier: str):
                     rep.violation("C07.R5", k, m.site(call), f"{callee.name}() is called without {role}: error positions are not shifted by the caller's offset")
                 else:
                     rep.violation("C07.R5", k, m.site(call), f"{callee.name}() receives {unparse(a)} as {role}: line and column offsets are crossed or altered")
+    # any other place that clones an error itself (e.g. an error raised outside the generator) hands the offsets over the same way
+    for f2 in m.functions.values():
+        if f2.is_lambda or f2 is tt or f2 is clone:
+            continue
+        for call in f2.local_nodes():
+            if not (isinstance(call, ast.Call) and isinstance(call.func, ast.Attribute) and call.func.attr == "clone"):
+                continue
+            t2 = g.expr_type(call.func.value, f2)
+            if not (t2 and t2[0] == "is" and t2[1].name == "TokenizeError"):
+                continue
+            for i, role in enumerate((line_p, col_p)):
+                a = call.args[i] if i < len(call.args) else next((kw.value for kw in call.keywords if kw.arg == role), None)
+                k = f"{f2.fq}|clone({role}=...)"
+                if a is not None and unparse(a) == role and role in f2.params:
+                    rep.ok("C07.R5", k, m.site(call))
+                elif a is not None and isinstance(a, ast.Name) and a.id in (line_p, col_p):
+                    rep.violation("C07.R5", k, m.site(call), f"clone() receives {unparse(a)} as {role}: line and column offsets are crossed")
+                elif a is None:
+                    rep.violation("C07.R5", k, m.site(call), f"clone() is called without {role}")
+                else:
+                    rep.listed("C07.R5", k, m.site(call), f"clone({role}={short(a, 30)}): an offset computed here, not judged")
     # the handler in _to_tokens clones whenever either offset is non-zero
     hs = [h for h in tt.local_nodes() if isinstance(h, ast.ExceptHandler) and h.type is not None and unparse(h.type) == "TokenizeError"]
     k = f"{tt.fq}|clone applied when either offset is non-zero"
@@ -3824,4 +3899,8 @@ def mutants(corpus: Corpus):
         out.append(Mutant("c07-pair-appended-twice", "C07.R6", m.rel, splice(m.src, app_, seg + "\n" + ind + "if value_token is None:\n" + ind + "    " + seg.replace("\n", "\n    ")), expect="in a sequence"))
     else:
         out.append(("c07-pairs-collected-in-a-dict", "append of the pair not found"))
+    # --- round 9: classes of the sixth-round seeds that had no mutant of their own yet ---
+    add("c07-fold-elif-became-if", "C07.R4", "_scan_plain_spaces", lambda n: isinstance(n, ast.If) and unparse(n.test) == "line_break != '\\n'" and n.orelse, lambda n: ast.get_source_segment(m.src, n).replace("elif not breaks", "if not breaks", 1), "_scan_plain_spaces")
+    add("c07-flow-spaces-ignore-tab", "C07.R4", "_scan_flow_scalar_spaces", is_cmp("stream.peek(length) in ' \\t'"), 'stream.peek(length) == " "', "_scan_flow_scalar_spaces|guards")
+    add("c07-digit-test-isdigit", "C07.R1", "_scan_block_scalar_indicators", is_cmp("ch in '0123456789'"), "ch.isdigit()", "int(ch)", nth=1)
     return out
